@@ -69,7 +69,15 @@ class StmtMixin:
         outs = self.ev(st.value, p, R)
         return [Outcome("next", q) for q, _ in outs] + self._raises(R)
 
+    def _no_stored_genexp(self, value):
+        """A generator expression is modelled like the list it would produce, which is exact only while it is consumed
+        once, at once (argument of any / all / set / sorted / join ...).  Bound to a name or returned it could be iterated
+        a second time (and then be empty): outside the subset."""
+        if isinstance(value, ast.GeneratorExp) or (isinstance(value, ast.IfExp) and any(isinstance(b, ast.GeneratorExp) for b in (value.body, value.orelse))):
+            raise Unsupported(f"generator expression stored or returned (line {value.lineno}): single-pass iterators are not modelled")
+
     def st_Assign(self, st, p):
+        self._no_stored_genexp(st.value)
         R: list = []
         res = []
         for q, v in self.ev(st.value, p, R):
@@ -85,6 +93,7 @@ class StmtMixin:
     def st_AnnAssign(self, st, p):
         if st.value is None:
             return [Outcome("next", p)]
+        self._no_stored_genexp(st.value)
         R: list = []
         res = []
         for q, v in self.ev(st.value, p, R):
@@ -214,6 +223,7 @@ class StmtMixin:
         if st.value is None:
             p.ghost["exit_line"] = st.lineno
             return [Outcome("return", p, NoneV)]
+        self._no_stored_genexp(st.value)
         R: list = []
         outs = self.ev(st.value, p, R)
         for q, _v in outs:
